@@ -583,6 +583,33 @@ def evalCmp (env : Env K) (op : COp) (e1 e2 : Expr) : Except Err (MArr Bool) :=
     | some r => .ok r
     | none => dflt
 
+/-! ### statement sequences on a shared environment
+
+An in-place operator is the pure operator plus rebinding of the target (`x += y` is `x := x + y`,
+`x *= y` is `x := x * y`, `x /= y` is `x := x * y.reciprocal()` - qube.py `__itruediv__`); the operators
+validate first, so a statement that raises leaves the environment unchanged. -/
+
+inductive Stmt where
+  | assign (i : Nat) (e : Expr)
+  | query (e : Expr)
+  deriving Repr
+
+/-- run the statements in order; every statement contributes the outcome it shows (the new value of
+    the target, or the query result, or the exception) -/
+def runStmts (env : Env K) : List Stmt → List (Except Err (Obj K)) × Env K
+  | [] => ([], env)
+  | .query e :: rest =>
+    let r := eval P env e
+    let (out, env') := runStmts env rest
+    (r :: out, env')
+  | .assign i e :: rest =>
+    let r := eval P env e
+    let env1 : Env K := match r with
+      | .ok x => { env with objs := env.objs.set i x }
+      | .error _ => env
+    let (out, env') := runStmts env1 rest
+    (r :: out, env')
+
 /-! ### observation -/
 
 /-- what can be seen of an array: shape, expanded mask, values at unmasked elements (row-major) -/
